@@ -462,9 +462,8 @@ class Run:
             self.result = self.interp.call(self.fn, args, {},
                                            self_obj=self.obj)
         except Raised as e:
-            if self.nqp or self.fail_tags is not None or (
-                    self.worker_raise_ok and any(
-                        ev[0] == "thread-raised" for ev in self.events)):
+            if self.nqp or self.fail_tags is not None or \
+                    self.worker_raise_ok:
                 self.raised = e.what
                 self.result = None
                 return
